@@ -502,7 +502,7 @@ class Polygon(Shape2D):
                 break
             except np.linalg.LinAlgError:
                 current_rotation = rowan.random.rand(1)
-                vertices = rowan.rotate(current_rotation, vertices)
+                vertices = rowan.rotate(current_rotation, self.vertices)
 
         if attempt == max_attempts:
             raise RuntimeError("Unable to solve for a bounding circle.")
